@@ -539,6 +539,10 @@ class _Ctx:
                         and not isinstance(val.value, bool) and bits != VAR \
                         and not isinstance(bits, tuple):
                     return [Item(bits, False, None, 'pad', line, val.value)]
+                if isinstance(bits, int):
+                    packed = self._packed_word(val, bits, line)
+                    if packed is not None:
+                        return packed
             return self._sized(bits, signed, args[1].value, 'field', line)
         if m == 'writebits' and len(args) >= 2:
             n = args[0]
@@ -650,6 +654,65 @@ class _Ctx:
         if isinstance(node, ast.Name) and node.id in self.cond_env:
             return ('COND', node.id), False
         return self.ex.size_bits(node, self.is_bits(recv), self.env)
+
+    def _packed_word(self, val: ast.AST, total: int, line: int) -> list | None:
+        """`(a << 31) | ((b & 0x07) << 28) | (c & 0x0FFFFFFF)` written as one word: the bit fields it
+        packs, most significant first; bits no term covers are constant-zero padding.  None when a
+        term is not of the shift/mask form."""
+        terms: list[ast.AST] = []
+
+        def flat(e: ast.AST) -> None:
+            if isinstance(e, ast.BinOp) and isinstance(e.op, (ast.BitOr, ast.Add)):
+                flat(e.left)
+                flat(e.right)
+            else:
+                terms.append(e)
+        flat(val)
+        if len(terms) < 2:
+            return None
+        fields: list[tuple[int, int | None, str]] = []     # (shift, width or None, name)
+        for t in terms:
+            shift = 0
+            if isinstance(t, ast.BinOp) and isinstance(t.op, ast.LShift) \
+                    and isinstance(t.right, ast.Constant) and isinstance(t.right.value, int):
+                shift, t = t.right.value, t.left
+            width = None
+            if isinstance(t, ast.BinOp) and isinstance(t.op, ast.BitAnd):
+                for a, b in ((t.left, t.right), (t.right, t.left)):
+                    if isinstance(b, ast.Constant) and isinstance(b.value, int) and b.value > 0 \
+                            and (b.value & (b.value + 1)) == 0:
+                        width, t = b.value.bit_length(), a
+                        break
+                else:
+                    return None
+            if isinstance(t, ast.Call) and isinstance(t.func, ast.Name) and t.func.id in ('int', 'bool') \
+                    and len(t.args) == 1:
+                t = t.args[0]
+                if width is None and isinstance(t, ast.AST):
+                    pass
+            name = None
+            if isinstance(t, ast.Attribute) and isinstance(t.value, ast.Name) and t.value.id == 'self':
+                name = t.attr
+            elif isinstance(t, ast.Name):
+                name = t.id
+            if name is None:
+                return None
+            fields.append((shift, width, name))
+        fields.sort(key=lambda f: -f[0])
+        out: list = []
+        top = total
+        for shift, width, name in fields:
+            if width is None:
+                width = top - shift          # an unmasked term owns everything above its shift
+            if width <= 0 or shift + width > top:
+                return None                  # overlapping terms: not a packing this models
+            if shift + width < top:
+                out.append(Item(top - shift - width, False, None, 'pad', line, 0))
+            out.append(Item(width, False, name, 'field', line))
+            top = shift
+        if top > 0:
+            out.append(Item(top, False, None, 'pad', line, 0))
+        return out
 
     def _sized(self, bits, signed, label, kind, line) -> list:
         if isinstance(bits, tuple) and bits[0] == 'COND':
